@@ -3,6 +3,7 @@
 #include "bitBoard.cpp"
 #include "cspsolver.cpp"
 #include "verif.h"
+#include "models.h"
 
 typedef BitSet<64, -16> Dom;
 typedef BitSet<192> CSet;
@@ -163,7 +164,17 @@ void h_solve(void) {
         setConstr(k, cv1[k], cv2[k], cc[k]);
     }
     std::vector<int>& values = valuesVec();
+#ifdef DIRECT
+    // what CspSolver::solve() does, minus its std::vector::assign boilerplate (values := -1, varToConstr := per-variable
+    // constraint sets), which is done here directly: the two real phases are called in solve()'s order
+    pointVec(values, valArr, nVars, MAXV);
+    for (int i = 0; i < MAXV; i++) { valArr[i] = -1; v2cArr[i].clear(); }
+    for (int k = 0; k < MAXC; k++) if (k < nConstr) { v2cArr[cv1[k]].setBit(k); v2cArr[cv2[k]].setBit(k); }
+    cs.nodes = 0;
+    bool res = cs.makeArcConsistent() && cs.solveRecursive(0, values);      // real, real
+#else
     bool res = cs.solve(values);                         // real
+#endif
     verif_observe(res);
     if (res) {
         CHECK((int)values.size() == nVars, "one value per variable");
